@@ -941,6 +941,13 @@ fn needs_yaml_quoting(s: &str) -> bool {
         return true;
     }
 
+    // The loader types a plain scalar through `resolve_plain`; whatever it
+    // would read back as a non-string (`0x2A`, `0o17`, `+.5`, `+.inf`, ...)
+    // must be quoted, whether or not the heuristics above know the spelling.
+    if crate::yaml::resolve_plain(s) != crate::yaml::ResolvedScalar::Str {
+        return true;
+    }
+
     // Check for characters that need escaping
     for b in bytes {
         if *b < 0x20 || *b == b':' || *b == b'#' {
